@@ -148,6 +148,32 @@ pub fn run(ctx: &Ctx, rep: &mut Report) {
             }
         }
     });
+    // long leading runs: 17-60 options before the expression (any fixed capacity for the leading run shows as
+    // -true operands wrapped around the expression, or as options that no longer count)
+    let n_lead = ctx.pick(40, 20_000);
+    par_cases(ctx, "leading", n_lead, rep, |i, rep| {
+        let mut r = Rng::for_case(ctx.seed, "leading", i);
+        let k = 17 + r.usize(44);
+        let mut words: Vec<String> = vec![];
+        for _ in 0..k {
+            words.push(if r.chance(1, 2) { "-depth".to_string() } else { format!("-threads {}", r.below(64)) });
+        }
+        let leaves = 1 + r.usize(3);
+        let e = gen_tree(&mut r, leaves, &mut |r| gen_leaf(r, 25));
+        let body = match render_default(&e) {
+            Some(b) => b,
+            None => return,
+        };
+        let text = format!("{} {}", words.join(" "), body);
+        rep.evaluations += 1;
+        rep.count("long_leading_runs");
+        match compare(&text) {
+            Cmp::Skip(_) => rep.skipped_unspecified += 1,
+            Cmp::AgreeErr(_, _) => rep.count("refused"),
+            Cmp::AgreeOk(..) => rep.count("accepted"),
+            Cmp::Bad { kind, what, detail } => rep.violation(&format!("C13:{}", kind), &what, &format!("leading:{}", i), detail),
+        }
+    });
     if ctx.only.is_none() {
         rep.floor("thread argument observed at run time", rep.get("thread_argument_checked") > 100);
         rep.floor("non-leading options exercised", rep.get("inputs_with_non_leading_option") > 100);
